@@ -59,8 +59,22 @@ func checkGuards(r *Reporter, p *Prog, rule string, rows []GuardRow) {
 				continue
 			}
 		} else if !resolveMutexChain(st, row.Mutex) {
-			r.Unresolved(rule, row.Pkg+"."+row.Type+"."+row.Mutex, "mutex field chain does not resolve to a mutex type")
-			continue
+			// the mutex was renamed (an embedded sync.RWMutex turned into a named field, say): the struct's
+			// one and only mutex field is the guard
+			alt := ""
+			nMu := 0
+			for j := 0; j < st.NumFields(); j++ {
+				if isMutexType(st.Field(j).Type()) {
+					nMu++
+					alt = st.Field(j).Name()
+				}
+			}
+			if nMu != 1 {
+				r.Unresolved(rule, row.Pkg+"."+row.Type+"."+row.Mutex, "mutex field chain does not resolve to a mutex type")
+				continue
+			}
+			r.Advise(fmt.Sprintf("%s: %s.%s: tabled mutex %s not found, using the struct's only mutex field %s", rule, row.Pkg, row.Type, row.Mutex, alt))
+			row.Mutex = alt
 		}
 		for _, f := range row.Fields {
 			var fv *types.Var
